@@ -492,6 +492,15 @@ Definition c13_ops_F34 : list op :=
 Lemma c13_cost_refuted_F34 : ~ C13_cost_full LruP (c13_cfg 4).
 Proof. intros H. specialize (H 1000 c13_ops_F34). vm_compute in H. discriminate. Qed.
 
+(* lossy buffer: 513 Write events for one shard, the last ones are dropped, among them the
+   overwrite of key 1 with cost 0; metrics() with introspection drains everything that was kept *)
+Definition c13_cfg_intro (cap : N) : cfg := mkCfg 1 cap None None 60 1 false true false true no_fixes.
+Definition c13_ops_lossy : list op :=
+  [OInsert 1 100 1] ++ map (fun i => OInsert 2 (200 + i) 5) (nseq 512) ++ [OInsert 1 101 0; OCost; OMaint []].
+
+Lemma c13_cost_refuted_lossy : ~ C13_cost_full LruP (c13_cfg_intro 4).
+Proof. intros H. specialize (H 1000 c13_ops_lossy). vm_compute in H. discriminate. Qed.
+
 (** * the evict clause for the recency-list policies (Lru, Fifo share LruList::evict) *)
 Lemma ll_evict_ok_at (l : lru_list) n :
   NoDup (keys l) ->
